@@ -17,12 +17,31 @@ Monitors (all on executions of the real code):
     CRITICAL keeps SHUTDOWN -- this is what sees tolerance applied a second time to a remembered (already lowered)
     response over repeated sightings on one long-lived system;
   * tolerance series: several evaluations on one long-lived RegulatoryTCell / record, equal-but-distinct responses.
+Round 4: every obligation follows the CURRENT value of the public settings (thresholds, manual flag, the profile's fields amended
+in place or the profile replaced, rules / stability threshold / rule severities / record durations assigned mid-series, size and
+training settings of the system, memory / filter replaced); numbers, flags, hashes, rules and payloads of unusual types (bool,
+Fraction, Decimal, str subclasses, falsy callables, one-shot iterables, duck-typed fingerprints and responses); equal or identical
+fingerprints re-inspected after an amendment; copy / deepcopy / pickle duplicates that take over a history; several watchers,
+filters, systems and agents in one process used alternately (two watchers on ONE profile object); rule conditions that raise (any
+exception type); read-only and maintenance calls anywhere; re-registration; hostile names; process time zone far from UTC with
+clock steps in both directions; very long sessions; a probe of all obligations under `python -O`; a count of the public API called.
 Only the directions the statement gives are asserted: escalation => two signals; in-baseline => no threat;
 desensitised => silent; tolerance lowers by <= 1 step and never touches CRITICAL; trained window => no threat.
 """
+import copy
+import gc
+import io
+import json
 import math
+import os
+import pickle
+import random
+import subprocess
 import sys
-from datetime import datetime
+import time
+from datetime import datetime, timedelta
+from decimal import Decimal
+from fractions import Fraction
 
 from rv import core, vclock
 
@@ -40,7 +59,10 @@ RULE = ("cases = sweep of the single-inspection table (7 baseline comparisons x 
         "random, rollover = window fills and rolls over while off-baseline then a whole window back inside, recurrence = one threat "
         "sighted repeatedly while a tolerance rule allowed for CONFIRMED keeps matching); non-trivial = the case reached SUSPICIOUS or "
         "higher (or, for tolerance cases, a rule or the stability shortcut fired); distinct = (kind, signal 1, signal-2 sources, "
-        "violation-count class, desensitised, reported level, tolerance outcome)")
+        "violation-count class, desensitised, reported level, tolerance outcome). Half of the random cases are 'rich': settings and "
+        "baselines changed mid-history, unusual value types, duplicates, read-only / maintenance calls, raising rules, two instances "
+        "or two agents interleaved; one 22 000-operation T-cell history and one 2 500-step end-to-end session per quick run; the "
+        "process time zone is UTC, UTC+14 or UTC-11 by case number; ~1 200 cases are repeated by a child interpreter under -O")
 ASSUMPTIONS = [
     "baseline violation = any of the profile's seven comparisons (three closed intervals, error-rate maximum, two hash sets, "
     "canary minimum); a canary result below the minimum therefore counts as a violation and as the canary second signal",
@@ -57,6 +79,19 @@ ASSUMPTIONS = [
     "directly constructed fingerprints are finite; rule conditions do not raise or mutate their arguments",
     "current behaviour (end to end) = the fingerprint of the last window_size observations recorded since the last clear() together "
     "with all canary results since the last clear(), computed by a fresh MHCDisplay from the harness' own copy of that window",
+    "public settings are read at the time of the call: repeated anomaly / desensitisation are judged against the thresholds in force "
+    "at that inspection (thresholds of any numeric type; 0 or negative = reached at once), the baseline is the profile object the "
+    "watcher holds with the field values it has at that inspection (amended in place, re-assigned as another container type, or the "
+    "profile replaced); numbers of other exact types (int, bool, Fraction, Decimal) denote the float they were converted from",
+    "a manual flag is withdrawn by reset() or by assigning manual_flag = None; every flag_manually()/flag_agent() call and every other "
+    "assigned value counts as a flag being present, even an empty reason (presence only ever permits an escalation, it never demands one)",
+    "an inspection / evaluation during which a user-supplied rule condition raises reports nothing and is not judged (the exception is "
+    "the caller's); the watcher had been consulted, so its anomaly streak moved on; every later call is judged as usual",
+    "a copy / deepcopy / pickle duplicate of a watcher, filter, record or system carries the original's history and settings",
+    "registering an agent again gives it an empty display (no current behaviour until min_observations are recorded again) built from "
+    "the system's current size settings; the trained watcher and its baseline stay",
+    "the process time zone and steps of the clock in either direction do not enter any obligation (they can only change whether "
+    "tolerance is applied, never how far it may lower an action)",
     "the recommended action of a reported response is the response table's action for its level (NONE ignore, SUSPICIOUS monitor, "
     "CONFIRMED isolate, CRITICAL shutdown); a response answered from memory may carry the one-step-lowered action it was stored "
     "with, but not less, and a remembered CRITICAL keeps SHUTDOWN (signatures preloaded by the harness carry the table action)",
@@ -102,6 +137,80 @@ def gen_profile_spec(rng):
         "struct": sorted({h() for _ in range(rng.randint(1, 2))}),
         "canary_min": rng.choice([0.0, 0.45, 0.5, 0.81, 0.9, 1.0, rng.uniform(0, 1)]),
     }
+
+
+FIELDS7_ = ("len", "rt", "conf", "err", "vocab", "struct", "canary")
+
+
+def copy_spec(spec):
+    return {"len": tuple(spec["len"]), "rt": tuple(spec["rt"]), "conf": tuple(spec["conf"]), "err_max": spec["err_max"],
+            "vocab": list(spec["vocab"]), "struct": list(spec["struct"]), "canary_min": spec["canary_min"]}
+
+
+def spec_of(prof):
+    """harness-side reading of a profile's PUBLIC fields (the values the harness itself put there or training produced)"""
+    return {"len": tuple(prof.output_length_bounds), "rt": tuple(prof.response_time_bounds), "conf": tuple(prof.confidence_bounds),
+            "err_max": prof.error_rate_max, "vocab": sorted(prof.valid_vocabulary_hashes), "struct": sorted(prof.valid_structure_hashes),
+            "canary_min": prof.canary_accuracy_min}
+
+
+def spec_include(spec, vals, fields=FIELDS7_):
+    """amend the harness' numbers so that the fingerprint lies inside the baseline for the given comparisons"""
+    for f in fields:
+        if f in ("len", "rt", "conf"):
+            lo, hi = spec[f]
+            v = vals[f]
+            spec[f] = (min(lo, v), max(hi, v))
+        elif f == "err":
+            spec["err_max"] = max(spec["err_max"], vals["err"])
+        elif f in ("vocab", "struct"):
+            if vals[f] not in spec[f]:
+                spec[f] = sorted(list(spec[f]) + [vals[f]])
+        elif vals["canary"] is not None:
+            spec["canary_min"] = min(spec["canary_min"], vals["canary"])
+
+
+def spec_exclude(spec, vals, f, upper):
+    """amend the harness' numbers so that the fingerprint violates comparison f (where that is possible)"""
+    if f in ("len", "rt", "conf"):
+        lo, hi = spec[f]
+        v = vals[f]
+        if upper:
+            nlo = math.nextafter(v, INF)
+            spec[f] = (nlo, max(hi, nlo))
+        else:
+            nhi = math.nextafter(v, -INF)
+            spec[f] = (min(lo, nhi), nhi)
+    elif f == "err":
+        spec["err_max"] = math.nextafter(vals["err"], -INF) if upper else vals["err"] - 0.25
+    elif f in ("vocab", "struct"):
+        spec[f] = [x for x in spec[f] if x != vals[f]]
+    elif vals["canary"] is not None:
+        spec["canary_min"] = math.nextafter(vals["canary"], INF) if upper else vals["canary"] + 0.25
+
+
+def push_spec(prof, spec, rng):
+    """write the harness' numbers into the PUBLIC fields of a live profile: sets amended in place (add / discard) or
+    re-assigned (as set, frozenset, list or tuple), bounds re-assigned as tuple or list"""
+    for f, attr in (("len", "output_length_bounds"), ("rt", "response_time_bounds"), ("conf", "confidence_bounds")):
+        if tuple(getattr(prof, attr)) != tuple(spec[f]):
+            setattr(prof, attr, tuple(spec[f]) if rng.random() < 0.7 else list(spec[f]))
+    if prof.error_rate_max != spec["err_max"]:
+        prof.error_rate_max = spec["err_max"]
+    if prof.canary_accuracy_min != spec["canary_min"]:
+        prof.canary_accuracy_min = spec["canary_min"]
+    for f, attr in (("vocab", "valid_vocabulary_hashes"), ("struct", "valid_structure_hashes")):
+        cur = getattr(prof, attr)
+        new = set(spec[f])
+        if set(cur) == new:
+            continue
+        if isinstance(cur, set) and rng.random() < 0.7:
+            for x in sorted(new - cur):
+                cur.add(x)
+            for x in sorted(cur - new):
+                cur.discard(x)
+        else:
+            setattr(prof, attr, rng.choice([set, set, frozenset, list, tuple])(sorted(new)))
 
 
 def build_profile(spec, agent_id="agent"):
@@ -165,7 +274,7 @@ def realize_fp(spec, fp, k=0):
     vals["err"] = {"zero": 0.0, "below": m / 2, "at": m, "above": math.nextafter(m, INF), "far": m + 0.3}[fp["err"]]
 
     def hsh(kind, pool):
-        base = pool[k % len(pool)]
+        base = pool[k % len(pool)] if pool else "0" * 12   # a baseline amended down to no valid hash: nothing is known
         return {"known": base, "unknown": "f" * 11 + "g", "upper": base.upper() if base.upper() != base else base + "x",
                 "prefix": base[:6], "empty": ""}[kind]
 
@@ -212,12 +321,46 @@ def baseline_truth(spec, vals):
     return {"violated": out, "canary_failed": canary_failed}
 
 
-def build_peptide(vals, agent_id="agent"):
+class Duck:
+    """a plain object carrying the attribute names of a library payload (compares by identity only)"""
+
+    def __init__(self, **kw):
+        self.__dict__.update(kw)
+
+
+class StrSub(str):
+    """a str subclass (hashes / compares like the plain string)"""
+
+
+PEPTIDE_FORMS = ["plain"] * 12 + ["duck", "duck", "frac", "dec", "int", "int", "strsub", "boolcanary"]
+
+
+def num_form(v, form):
+    """the same number as another numeric type (exact conversions only, so the harness' float comparisons stay the truth)"""
+    if not isinstance(v, float) or not math.isfinite(v):
+        return v
+    if form == "frac":
+        return Fraction(v)
+    if form == "dec":
+        return Decimal(v)
+    if form == "int" and v == int(v) and (v != 0 or math.copysign(1.0, v) > 0):
+        return int(v)
+    return v
+
+
+def build_peptide(vals, agent_id="agent", form="plain"):
     from operon_ai.surveillance.types import MHCPeptide
-    return MHCPeptide(agent_id=agent_id, timestamp=datetime(2026, 1, 1), output_length_mean=vals["len"], output_length_std=1.0,
-                      response_time_mean=vals["rt"], response_time_std=0.1, vocabulary_hash=vals["vocab"],
-                      structure_hash=vals["struct"], confidence_mean=vals["conf"], confidence_std=0.05,
-                      error_rate=vals["err"], error_types=(), canary_accuracy=vals["canary"])
+    canary = vals["canary"]
+    if form == "boolcanary" and canary in (0.0, 1.0):
+        canary = bool(canary)
+    voc, stc = vals["vocab"], vals["struct"]
+    if form == "strsub":
+        voc, stc = StrSub(voc), StrSub(stc)
+    kw = dict(agent_id=agent_id, timestamp=datetime(2026, 1, 1), output_length_mean=num_form(vals["len"], form), output_length_std=1.0,
+              response_time_mean=num_form(vals["rt"], form), response_time_std=0.1, vocabulary_hash=voc,
+              structure_hash=stc, confidence_mean=num_form(vals["conf"], form), confidence_std=0.05,
+              error_rate=num_form(vals["err"], form), error_types=(), canary_accuracy=num_form(canary, form))
+    return Duck(**kw) if form == "duck" else MHCPeptide(**kw)
 
 
 # ------------------------------------------------------------------ the two-signal reference model
@@ -332,50 +475,202 @@ def judge(ctx, scope, r, st, desc):
 
 
 # ------------------------------------------------------------------ T-cell histories
-def run_tcell_history(ctx, spec, thr_repeat, thr_anergy, ops, kind, want_last=False):
-    from operon_ai.surveillance.tcell import TCell
-    tc = TCell(profile=build_profile(spec), repeated_anomaly_threshold=thr_repeat, anergy_threshold=thr_anergy)
-    model = WatcherModel(thr_repeat, thr_anergy)
-    desc = {"kind": kind, "profile": spec, "repeated_anomaly_threshold": thr_repeat, "anergy_threshold": thr_anergy, "ops": []}
-    last = None
-    reached = set()
-    k = 0
-    for op in ops:
-        if op[0] == "inspect":
-            vals, truth = realize_fp(spec, op[1], k)
-            k += 1
+THR_TOKENS = ["0", "1", "true", "false", "2", "2.5", "5/2", "dec3", "3.0", "-1", "big", "inf", "count", "count", "count", "count+1", "count-1"]
+
+
+def thr_value(tok, count=0):
+    """threshold values of every usual and unusual type; `count*` = relative to what the watcher has on record right now"""
+    return {"0": 0, "1": 1, "true": True, "false": False, "2": 2, "2.5": 2.5, "5/2": Fraction(5, 2), "dec3": Decimal(3), "3.0": 3.0,
+            "-1": -1, "big": 10 ** 18, "inf": INF, "count": count, "count+1": count + 1, "count-1": count - 1}[tok]
+
+
+def dup_object(obj, how):
+    if how == "copy":
+        return copy.copy(obj)
+    if how == "deepcopy":
+        return copy.deepcopy(obj)
+    return pickle.loads(pickle.dumps(obj))
+
+
+class TSession:
+    """one long-lived T cell + its reference model; `share` = watch the SAME profile object as another session"""
+
+    def __init__(self, ctx, spec, thr_repeat, thr_anergy, kind, agent_id="agent", share=None, rng=None):
+        from operon_ai.surveillance.tcell import TCell
+        self.ctx, self.kind, self.agent = ctx, kind, agent_id
+        self.rng = rng or random.Random(0)
+        if share is not None:
+            self.spec, prof = share.spec, share.tc.profile
+        else:
+            self.spec = copy_spec(spec)
+            prof = build_profile(self.spec, agent_id)
+        self.tc = TCell(profile=prof, repeated_anomaly_threshold=thr_repeat, anergy_threshold=thr_anergy)
+        self.model = WatcherModel(thr_repeat, thr_anergy)
+        self.desc = {"kind": kind, "profile": copy_spec(self.spec), "repeated_anomaly_threshold": thr_repeat,
+                     "anergy_threshold": thr_anergy, "ops": []}
+        self.last = None
+        self.reached = set()
+        self.k = 0
+        self.last_vals = self.last_pep = None
+        self.last_form = "plain"
+        self.amended = False
+        self.nlog = 0
+
+    def log(self, item):
+        self.nlog += 1
+        if self.nlog <= 300:
+            self.desc["ops"].append(item)
+        elif self.nlog == 301:
+            self.desc["ops"].append("... (later operations not listed)")
+
+    def own_spec(self):
+        """stop sharing the harness' numbers with a partner session (this T cell gets a profile object of its own)"""
+        self.spec = copy_spec(self.spec)
+
+    def step(self, op):
+        ctx, tc, model = self.ctx, self.tc, self.model
+        o = op[0]
+        if o in ("inspect", "again"):
+            if o == "inspect":
+                vals, truth = realize_fp(self.spec, op[1], self.k)
+                self.k += 1
+                form = op[2] if len(op) > 2 else "plain"
+                pep = build_peptide(vals, self.agent, form)
+                if any(c[0].startswith(("at_", "in_", "below", "above")) for c in (op[1]["len"], op[1]["rt"], op[1]["conf"])) \
+                        or op[1]["err"] in ("at", "above") or op[1]["canary"] in ("at", "below"):
+                    ctx.count("boundary_fingerprints")
+                if form != "plain":
+                    ctx.count("tcell_unusual_value_types")
+                self.log(["inspect", vals] if form == "plain" else ["inspect", vals, form])
+            else:
+                if self.last_vals is None:
+                    return
+                vals, form = self.last_vals, self.last_form
+                truth = baseline_truth(self.spec, vals)
+                pep = self.last_pep if op[1] == "same" and self.last_pep is not None else build_peptide(vals, self.agent, form)
+                ctx.count("tcell_reinspections_of_equal_fingerprint")
+                if self.amended:
+                    ctx.count("tcell_reinspections_after_baseline_amendment")
+                    if not truth["violated"]:
+                        ctx.count("tcell_reinspections_inside_amended_baseline")
+                self.log(["inspect-again", op[1], vals])
+            self.amended = False
+            self.last_vals, self.last_pep, self.last_form = vals, pep, form
             st = model.inspect(bool(truth["violated"]), truth["canary_failed"])
             st["violated_checks"] = truth["violated"]
-            desc["ops"].append(["inspect", vals])
-            if any(c[0].startswith(("at_", "in_", "below", "above")) for c in (op[1]["len"], op[1]["rt"], op[1]["conf"])) \
-                    or op[1]["err"] in ("at", "above") or op[1]["canary"] in ("at", "below"):
-                ctx.count("boundary_fingerprints")
-            r = tc.inspect(build_peptide(vals))
+            r = tc.inspect(pep)
             ctx.count("tcell_inspections")
-            judge(ctx, "tcell", r, st, desc)
-            last = (r, st)
+            judge(ctx, "tcell", r, st, self.desc)
+            self.last = (r, st)
             if r.threat_level.value != "none":
                 n = len(truth["violated"])
-                reached.add((kind if kind == "table" else "tcell", st["viol"], tuple(sorted(st["s2"])), min(n, 3), st["anergic"],
-                             r.threat_level.value))
-        elif op[0] == "flag":
-            desc["ops"].append(["flag", op[1]])
+                self.reached.add((self.kind if self.kind == "table" else "tcell", st["viol"], tuple(sorted(st["s2"])), min(n, 3),
+                                  st["anergic"], r.threat_level.value))
+        elif o == "flag":
+            self.log(["flag", op[1]])
             tc.flag_manually(op[1])
             model.set_flag()
-        elif op[0] == "reset":
-            desc["ops"].append(["reset"])
+        elif o == "flag_assign":
+            # the public attribute assigned directly; None withdraws the flag, anything else counts as a flag being present
+            self.log(["manual_flag =", op[1]])
+            tc.manual_flag = op[1]
+            model.flag = op[1] is not None
+            ctx.count("tcell_settings_changed_mid_history")
+        elif o == "reset":
+            self.log(["reset"])
             tc.reset()
             model.reset()
-        else:
-            desc["ops"].append(["reset_without_confirmation"])
+        elif o == "rwc":
+            self.log(["reset_without_confirmation"])
             tc.reset_without_confirmation()
             model.reset_without_confirmation()
-    for fp in reached:
-        ctx.nontrivial(fp)
+        elif o == "set":
+            which, tok = op[1], op[2]
+            v = thr_value(tok, model.false_alarms if which == "anergy" else model.streak)
+            self.log(["%s_threshold =" % which, tok, v])
+            if which == "anergy":
+                tc.anergy_threshold = v
+                model.thr_anergy = v
+                if model.anergic:
+                    ctx.count("tcell_desensitised_by_threshold_change")
+            else:
+                tc.repeated_anomaly_threshold = v
+                model.thr_repeat = v
+            ctx.count("tcell_settings_changed_mid_history")
+        elif o == "amend":
+            mode = op[1]
+            if mode in ("replace_same", "replace_new"):
+                self.own_spec()
+                if mode == "replace_new":
+                    self.spec = copy_spec(op[2])
+                tc.profile = build_profile(self.spec, self.agent)
+            elif self.last_vals is not None:
+                if mode == "include_all":
+                    spec_include(self.spec, self.last_vals)
+                elif mode == "include_one":
+                    spec_include(self.spec, self.last_vals, (op[2],))
+                else:
+                    spec_exclude(self.spec, self.last_vals, op[2], op[3])
+                push_spec(tc.profile, self.spec, self.rng)
+            self.amended = True
+            self.log(["amend-baseline", mode] + list(op[2:]) + [copy_spec(self.spec)])
+            ctx.count("tcell_baseline_amendments")
+        elif o == "read":
+            self.log(["read", op[1]])
+            self.read(op[1])
+            ctx.count("tcell_readonly_calls")
+        elif o == "dup":
+            self.log(["duplicate", op[1]])
+            self.tc = dup_object(tc, op[1])
+            if op[1] != "copy":
+                self.own_spec()   # the duplicate carries a profile object of its own
+            ctx.count("tcell_duplicates")
+        elif o == "gc":
+            self.last_pep = None
+            gc.collect()
+            ctx.count("gc_collections")
+
+    def read(self, which):
+        """read-only API: nothing here may change a later verdict"""
+        tc = self.tc
+        if which == "is_anergic":
+            tc.is_anergic
+        elif which == "repr":
+            repr(tc)
+        elif which == "state":
+            tc.state.is_activated
+        elif which == "check_last" and self.last_pep is not None:
+            tc.profile.check(self.last_pep)
+        elif which == "check_other":
+            vals, _ = realize_fp(self.spec, fp_from_mask(self.k % 128, False), self.k)
+            tc.profile.check(build_peptide(vals, self.agent))
+        elif which == "similarity" and self.last_pep is not None and self.last_form in ("plain", "strsub", "int", "boolcanary"):
+            self.last_pep.similarity(build_peptide(self.last_vals, self.agent))
+        elif which == "eq" and self.last_pep is not None:
+            self.last_pep == build_peptide(self.last_vals, self.agent, self.last_form)
+            if not isinstance(self.last_pep, Duck):
+                try:
+                    hash(self.last_pep)
+                except TypeError:
+                    pass
+
+    def finish(self):
+        for fp in self.reached:
+            self.ctx.nontrivial(fp)
+        if self.reached:
+            sample_once(self.ctx, {"kind": self.kind, "thresholds": [self.desc["repeated_anomaly_threshold"], self.desc["anergy_threshold"]],
+                                   "ops": self.nlog, "reached": sorted(map(str, self.reached))[:3]})
+
+
+def run_tcell_history(ctx, spec, thr_repeat, thr_anergy, ops, kind, want_last=False, rng=None):
+    s = TSession(ctx, spec, thr_repeat, thr_anergy, kind, rng=rng)
+    for op in ops:
+        s.step(op)
     if want_last:
-        return last, desc
-    if reached:
-        sample_once(ctx, {"kind": kind, "thresholds": [thr_repeat, thr_anergy], "ops": len(ops), "reached": sorted(map(str, reached))[:3]})
+        for fp in s.reached:
+            ctx.nontrivial(fp)
+        return s.last, s.desc
+    s.finish()
     return None
 
 
@@ -415,14 +710,51 @@ def case_table(ctx, item):
     run_tcell_history(ctx, TABLE_SPEC, thr_repeat, thr_anergy, ops, "table")
 
 
-def gen_tcell_ops(rng, nmax=15):
+FLAG_REASONS = ["operator request", "x", "escalated by on-call", "0", " ", "", "ticket {0} %s .*[", "line\nbreak\x00", StrSub("flagged")]
+
+
+def gen_rich_op(rng):
+    """operations of the classes beyond inspect / flag / reset: settings changed after construction, the baseline amended or
+    replaced, read-only calls, duplicates of the watcher, dropped inputs"""
+    r = rng.random()
+    if r < 0.28:
+        return ("set", rng.choice(["anergy", "anergy", "repeat"]), rng.choice(THR_TOKENS))
+    if r < 0.36:
+        return ("flag_assign", rng.choice([None, None, "late flag", "", 0, StrSub("s")]))
+    if r < 0.62:
+        mode = rng.choice(["include_all", "include_all", "include_all", "include_one", "exclude_one", "exclude_one", "replace_same", "replace_new"])
+        if mode == "include_one":
+            return ("amend", mode, rng.choice(FIELDS7_))
+        if mode == "exclude_one":
+            return ("amend", mode, rng.choice(FIELDS7_), rng.random() < 0.5)
+        if mode == "replace_new":
+            return ("amend", mode, gen_profile_spec(rng))
+        return ("amend", mode)
+    if r < 0.84:
+        return ("read", rng.choice(["is_anergic", "repr", "state", "check_last", "check_last", "check_other", "check_other", "similarity", "eq"]))
+    if r < 0.993:
+        return ("dup", rng.choice(["copy", "deepcopy", "pickle"]))
+    return ("gc",)
+
+
+def gen_tcell_ops(rng, nmax=15, rich=False):
     ops = []
     p_in = rng.choice([1.0, 0.9, 0.8, 0.6, 0.3])
     sticky = None
     n = rng.randint(1, nmax)
     prev_inspect = False
+    forms = PEPTIDE_FORMS if rich else ["plain"]
     while len(ops) < n:
         r = rng.random()
+        if rich and ops and rng.random() < 0.3:
+            op = gen_rich_op(rng)
+            ops.append(op)
+            if op[0] == "amend" and rng.random() < 0.8:
+                if rng.random() < 0.3:
+                    ops.append(("read", "check_last"))
+                ops.append(("again", rng.choice(["same", "equal"])))
+                prev_inspect = True
+            continue
         if prev_inspect and r < 0.35:
             ops.append(("rwc",))
             prev_inspect = False
@@ -432,36 +764,110 @@ def gen_tcell_ops(rng, nmax=15):
             else:
                 fp = gen_fp_spec(rng, p_in)
                 sticky = fp if rng.random() < 0.5 else None
-            ops.append(("inspect", fp))
+            ops.append(("inspect", fp, rng.choice(forms)))
             prev_inspect = True
         elif r < 0.85:
-            ops.append(("inspect", gen_fp_spec(rng, rng.choice([1.0, p_in]))))
+            if rich and prev_inspect and rng.random() < 0.15:
+                ops.append(("again", rng.choice(["same", "equal"])))
+            else:
+                ops.append(("inspect", gen_fp_spec(rng, rng.choice([1.0, p_in])), rng.choice(forms)))
             prev_inspect = True
         elif r < 0.92:
-            ops.append(("flag", rng.choice(["operator request", "x", "escalated by on-call", "0", " "])))
+            ops.append(("flag", rng.choice(FLAG_REASONS if rich else FLAG_REASONS[:5])))
         else:
             ops.append(("reset",))
             prev_inspect = False
     return ops
 
 
-def case_tcell(ctx, rng):
-    spec = gen_profile_spec(rng)
+def gen_thresholds(rng, rich):
     thr_repeat = rng.choice([1, 2, 3, 3, 3, 4, 6])
     thr_anergy = rng.choice([1, 2, 2, 3, 5])
-    run_tcell_history(ctx, spec, thr_repeat, thr_anergy, gen_tcell_ops(rng), "tcell")
+    if rich and rng.random() < 0.25:
+        thr_repeat = thr_value(rng.choice(["0", "1", "true", "2.5", "5/2", "dec3", "3.0", "-1", "big", "inf"]))
+    if rich and rng.random() < 0.25:
+        thr_anergy = thr_value(rng.choice(["0", "1", "true", "false", "2.5", "5/2", "dec3", "-1", "big", "inf"]))
+    return thr_repeat, thr_anergy
+
+
+def case_tcell(ctx, rng):
+    rich = rng.random() < 0.5
+    spec = gen_profile_spec(rng)
+    thr_repeat, thr_anergy = gen_thresholds(rng, rich)
+    if not rich or rng.random() < 0.7:
+        run_tcell_history(ctx, spec, thr_repeat, thr_anergy, gen_tcell_ops(rng, rich=rich), "tcell", rng=rng)
+        return
+    # several watchers in one process, configured differently and used alternately; half of the pairs watch the SAME profile
+    # object (an amendment made through one is the current baseline of the other as well)
+    ctx.count("tcell_pair_cases")
+    a = TSession(ctx, spec, thr_repeat, thr_anergy, "tcell", rng=rng)
+    shared = rng.random() < 0.5
+    t2 = gen_thresholds(rng, True)
+    b = TSession(ctx, gen_profile_spec(rng), t2[0], t2[1], "tcell", agent_id=rng.choice(["agent", "Agent", "agent-2"]),
+                 share=a if shared else None, rng=rng)
+    if shared:
+        ctx.count("tcell_pairs_sharing_one_profile")
+    queues = [(a, gen_tcell_ops(rng, rich=True)), (b, gen_tcell_ops(rng, rich=True))]
+    while queues:
+        i = rng.randrange(len(queues))
+        sess, ops = queues[i]
+        if not ops:
+            del queues[i]
+            continue
+        op = ops.pop(0)
+        if shared and op[0] == "amend" and op[1] not in ("replace_same", "replace_new"):
+            # the amended numbers are relative to the amending session's last fingerprint; both watchers see them
+            ctx.count("tcell_amendments_seen_through_shared_profile")
+        sess.step(op)
+    a.finish()
+    b.finish()
+
+
+def case_long_tcell(ctx, rng, nops):
+    """one watcher, one very long history (settings, amendments, duplicates, read-only calls all along the way)"""
+    spec = gen_profile_spec(rng)
+    s = TSession(ctx, spec, 3, 5, "tcell-long", rng=rng)
+    done = 0
+    while done < nops:
+        ops = gen_tcell_ops(rng, nmax=40, rich=True)
+        for op in ops:
+            if op[0] == "dup" and rng.random() < 0.8:
+                continue
+            s.step(op)
+        done += len(ops)
+        if rng.random() < 0.1:
+            # an operator re-arms the watcher with usual thresholds so that the history does not stay desensitised for ever
+            s.step(("set", "anergy", "count+1"))
+            s.step(("set", "repeat", rng.choice(["1", "2", "3.0"])))
+    ctx.count("long_tcell_histories")
+    ctx.maxc("longest_tcell_history", s.nlog)
+    s.finish()
 
 
 # ------------------------------------------------------------------ tolerance (Treg) cases
 LEVELS = ["none", "suspicious", "confirmed", "critical"]
 
 
-def make_rule(ctx, hits, kind, arg, sev, name):
-    from operon_ai.surveillance.treg import SuppressionRule
-    from operon_ai.surveillance.types import ThreatLevel
+_CTX = None     # the running shard's context (rule conditions are picklable objects, so they reach it through the module)
+_HITS = []      # names of the rules whose condition matched during the current evaluation
+EXC_TYPES = {"RuntimeError": RuntimeError, "TypeError": TypeError, "KeyError": KeyError, "TimeoutError": TimeoutError,
+             "AssertionError": AssertionError, "ValueError": ValueError, "OSError": OSError}
 
-    def cond(resp, rec):
-        ctx.count("rule_conditions_evaluated")
+
+class Cond:
+    """a tolerance rule's condition: a picklable callable (so that whole systems can be deep-copied and pickled)"""
+
+    def __init__(self, kind, arg, name, ret="bool"):
+        self.kind, self.arg, self.name, self.ret = kind, arg, name, ret
+
+    def __call__(self, resp, rec):
+        kind, arg = self.kind, self.arg
+        if _CTX is not None:
+            _CTX.count("rule_conditions_evaluated")
+        if kind == "raises":
+            if _CTX is not None:
+                _CTX.count("rule_conditions_raised")
+            raise EXC_TYPES[arg]("condition of rule %s failed" % self.name)
         if kind == "always":
             v = True
         elif kind == "never":
@@ -477,26 +883,65 @@ def make_rule(ctx, hits, kind, arg, sev, name):
         else:
             v = len(resp.violations) <= arg
         if v:
-            hits.append(name)
+            _HITS.append(self.name)
+        if self.ret == "obj":   # truthy / falsy values that are not bools
+            return (1 if len(self.name) % 2 else "yes") if v else ("" if len(self.name) % 2 else None)
         return v
 
-    return SuppressionRule(name=name, condition=cond, max_severity=ThreatLevel(sev)), {"name": name, "max_severity": sev, "arg": arg}
+
+class FalsyCond(Cond):
+    """a callable whose own truth value is False (an object with __call__ and __len__ == 0)"""
+
+    def __bool__(self):
+        return False
+
+    def __len__(self):
+        return 0
 
 
-def gen_rules(ctx, rng, hits, nmax=4):
+RULE_NAMES = ["", "rule {0} %s", "a.*(b", "nul\x00name", "two\nlines", "caf\u00e9"]
+
+
+def make_rule(ctx, kind, arg, sev, name, ret="bool", falsy=False, duration=None):
+    from operon_ai.surveillance.treg import SuppressionRule
+    from operon_ai.surveillance.types import ThreatLevel
+    cond = (FalsyCond if falsy else Cond)(kind, arg, name, ret)
+    kw = {} if duration is None else {"duration": duration}
+    return SuppressionRule(name=name, condition=cond, max_severity=ThreatLevel(sev), **kw), \
+        {"name": name, "max_severity": sev, "arg": arg, "kind": kind}
+
+
+RULE_KINDS = ["always", "always", "never", "recent_update", "tolerated", "signal2", "clean_streak", "few_violations"]
+
+
+def gen_rule(ctx, rng, i, rich):
+    kind = rng.choice(RULE_KINDS)
+    if rich and rng.random() < 0.08:
+        kind = "raises"
+    arg = None
+    if kind == "signal2":
+        arg = rng.choice(["none", "canary", "repeat", "manual", "cross"])
+    elif kind == "clean_streak":
+        arg = rng.choice([0, 1, 3, 50])
+    elif kind == "few_violations":
+        arg = rng.choice([1, 2, 5])
+    elif kind == "raises":
+        arg = rng.choice(sorted(EXC_TYPES))
+    sev = rng.choice(LEVELS)
+    name = "%s-%d" % (kind, i)
+    if rich and rng.random() < 0.15:
+        name = rng.choice(RULE_NAMES) + name
+    if not rich:
+        return make_rule(ctx, kind, arg, sev, name)
+    return make_rule(ctx, kind, arg, sev, name, ret=rng.choice(["bool", "bool", "obj"]), falsy=rng.random() < 0.2,
+                     duration=rng.choice([None, None, timedelta(0), timedelta(seconds=1), timedelta(days=400)]))
+
+
+def gen_rules(ctx, rng, nmax=4, rich=False):
     rules = []
     descs = []
     for i in range(rng.choice([0, 1, 1, 2, 3, nmax])):
-        kind = rng.choice(["always", "always", "never", "recent_update", "tolerated", "signal2", "clean_streak", "few_violations"])
-        arg = None
-        if kind == "signal2":
-            arg = rng.choice(["none", "canary", "repeat", "manual", "cross"])
-        elif kind == "clean_streak":
-            arg = rng.choice([0, 1, 3, 50])
-        elif kind == "few_violations":
-            arg = rng.choice([1, 2, 5])
-        sev = rng.choice(LEVELS)
-        rule, d = make_rule(ctx, hits, kind, arg, sev, "%s-%d" % (kind, i))
+        rule, d = gen_rule(ctx, rng, i, rich)
         rules.append(rule)
         descs.append(d)
     return rules, descs
@@ -594,23 +1039,132 @@ def gen_response(ctx, rng, desc):
                           violations=["vocabulary_hash unknown: 0123456789ab"] * rng.randint(1, 4))
 
 
+def describe_rules(treg):
+    out = []
+    try:
+        for r in list(treg.rules) if isinstance(treg.rules, (list, tuple)) else []:
+            out.append({"name": r.name, "max_severity": r.max_severity.value, "kind": getattr(r.condition, "kind", "?"),
+                        "arg": getattr(r.condition, "arg", None)})
+    except Exception:
+        pass
+    return out
+
+
+def tweak_treg(ctx, rng, clock, treg, rec, stab, log):
+    """between two evaluations: public settings of the filter, its rules and the record are assigned / mutated, time jumps,
+    read-only calls, the filter or the record is replaced by a duplicate. Returns (treg, rec)."""
+    from operon_ai.surveillance.types import ThreatLevel
+    r = rng.random()
+    if r < 0.22:
+        rules = treg.rules
+        how = rng.choice(["append", "insert_same", "remove", "tuple", "iter", "clear", "fresh_list"])
+        if not isinstance(rules, list):
+            how = "fresh_list"
+        if how == "append":
+            rules.append(gen_rule(ctx, rng, 90 + len(rules), True)[0])
+        elif how == "insert_same" and rules:
+            rules.insert(0, rng.choice(rules))      # the same rule object twice
+        elif how == "remove" and rules:
+            rules.pop(rng.randrange(len(rules)))
+        elif how == "tuple":
+            treg.rules = tuple(rules)
+        elif how == "iter":
+            treg.rules = iter(list(rules))          # one-shot iterable where a list is usual
+        elif how == "clear":
+            del rules[:]
+        else:
+            treg.rules = gen_rules(ctx, rng, rich=True)[0]
+        log(["rules", how])
+        ctx.count("treg_settings_changed_mid_series")
+    elif r < 0.34:
+        v = rng.choice([0, -1, 1, 2, 2.5, True, False, Fraction(7, 2), Decimal(1), 10 ** 9, stab])
+        treg.stability_threshold = v
+        log(["stability_threshold =", v])
+        ctx.count("treg_settings_changed_mid_series")
+    elif r < 0.42:
+        rules = treg.rules if isinstance(treg.rules, (list, tuple)) else []
+        if rules:
+            rule = rng.choice(rules)
+            rule.max_severity = ThreatLevel(rng.choice(LEVELS))
+            log(["max_severity of", rule.name, "=", rule.max_severity.value])
+            ctx.count("treg_settings_changed_mid_series")
+    elif r < 0.52:
+        d = rng.choice([timedelta(0), timedelta(microseconds=1), timedelta(seconds=0.5), timedelta(hours=1), timedelta(days=3),
+                        timedelta(days=-1)])
+        rec.update_tolerance_duration = d
+        log(["update_tolerance_duration =", str(d)])
+        ctx.count("treg_settings_changed_mid_series")
+    elif r < 0.58:
+        if rng.random() < 0.5:
+            rec.last_update = None
+            log(["last_update = None"])
+        else:
+            rec.mark_updated()
+            log(["mark_updated"])
+    elif r < 0.68:
+        dt = rng.choice([0.25, 1, 3599, 3600, 3601, 86399, 86400, 86401, 2 * 86400 + 5, 40 * 86400, -3600, -1])
+        clock.offset += dt      # negative = the clock the library reads steps backwards
+        log(["clock", dt])
+        ctx.count("clock_jumps")
+        if abs(dt) > 86400:
+            ctx.count("clock_jumps_over_a_day")
+    elif r < 0.76:
+        if rng.random() < 0.5:
+            rec.add_tolerated_violation(rng.choice(["response_time", "vocabulary_hash", "confidence", "zzz", "", "output_length"]))
+        else:
+            rec.tolerated_violations.clear()
+        log(["tolerated_violations", sorted(rec.tolerated_violations)])
+    elif r < 0.88:
+        treg.get_record(rec.agent_id)
+        treg.get_record("nobody")
+        rec.is_stable(rng.choice([0, 1, 100]))
+        rec.recent_update
+        repr(rec)
+        if isinstance(treg.rules, (list, tuple)):
+            repr(treg)
+        ctx.count("treg_readonly_calls")
+    else:
+        how = rng.choice(["copy", "deepcopy", "pickle"])
+        if isinstance(treg.rules, (list, tuple)):
+            if rng.random() < 0.5:
+                treg = dup_object(treg, how)
+                rec = treg.get_record(rec.agent_id) or rec
+            else:
+                rec = dup_object(rec, how)
+            log(["duplicate", how])
+            ctx.count("treg_duplicates")
+    return treg, rec
+
+
 def case_treg(ctx, rng):
-    """one long-lived filter + record; one evaluation (most cases) or a short series of evaluations on the same instance with the
-    record changing in between and equal-but-distinct responses evaluated again"""
+    """long-lived filters + records; one evaluation (most cases) or a series of evaluations on the same instances with the
+    records, rules and settings changing in between, equal-but-distinct and identical responses evaluated again, two filters
+    used alternately"""
     import dataclasses
     from operon_ai.surveillance import treg as treg_mod
-    hits = []
-    rules, rdesc = gen_rules(ctx, rng, hits)
+    rich = rng.random() < 0.5
+    rules, rdesc = gen_rules(ctx, rng, rich=rich)
     stab = rng.choice([1, 3, 100, 100])
-    treg = treg_mod.RegulatoryTCell(rules=rules, stability_threshold=stab)
-    top = {"kind": "treg", "rules": rdesc, "stability_threshold": stab, "series": []}
-    nresp = rng.choice([1, 1, 1, 2, 3, 5])
+    if rich and rng.random() < 0.3:
+        stab = rng.choice([0, -1, 1.5, True, Fraction(3, 2), 10 ** 12])
+    container = rng.choice(["list", "list", "list", "tuple", "iter"]) if rich else "list"
+    given = rules if container == "list" else (tuple(rules) if container == "tuple" else iter(rules))
+    treg = treg_mod.RegulatoryTCell(rules=given, stability_threshold=stab)
+    top = {"kind": "treg", "rules": rdesc, "rules_given_as": container, "stability_threshold": stab, "series": [], "between": []}
+    nresp = rng.choice([1, 1, 1, 2, 3, 5]) if not rich else rng.choice([1, 2, 3, 5, 8, 12])
     clock = vclock.VClock(base=1.8e9)
     prev = None
     with vclock.patched(clock, treg_mod):
-        rec = treg.register_agent("agent")
+        agent = rng.choice(AGENT_IDS) if rich else "agent"
+        rec = treg.register_agent(agent)
+        pairs = [(treg, rec)]
+        if rich and rng.random() < 0.4:
+            # a second filter in the same process, configured differently, used alternately with the first
+            t2 = treg_mod.RegulatoryTCell(rules=gen_rules(ctx, rng, rich=True)[0], stability_threshold=rng.choice([0, 1, 100]))
+            pairs.append((t2, t2.register_agent(agent)))
+            ctx.count("treg_pair_cases")
         clean = rng.choice([0, 0, stab - 1, stab, stab + 7])
-        for _ in range(max(0, min(clean, 120))):
+        for _ in range(int(max(0, min(clean, 120)))):
             rec.record_inspection(clean=True)
         if rng.random() < 0.5:
             rec.mark_updated()
@@ -618,20 +1172,51 @@ def case_treg(ctx, rng):
         if rng.random() < 0.4:
             rec.add_tolerated_violation(rng.choice(["response_time", "vocabulary_hash", "confidence", "zzz"]))
         for step in range(nresp):
+            which = rng.randrange(len(pairs))
+            treg, rec = pairs[which]
+            if rich and step and rng.random() < 0.6:
+                treg, rec = tweak_treg(ctx, rng, clock, treg, rec, stab, top["between"].append)
+                pairs[which] = (treg, rec)
+            if len(pairs) > 1 and rng.random() < 0.2:
+                rec = pairs[1 - which][1]      # the other filter's record: records are plain arguments
             desc = dict(top, step=step)
             if prev is not None and rng.random() < 0.35:
-                resp = dataclasses.replace(prev, violations=list(prev.violations))  # equal, distinct
-                desc["response_source"] = "copy of the previous response"
+                if rich and rng.random() < 0.4:
+                    resp = prev                     # the same object again
+                    desc["response_source"] = "the previous response object"
+                else:
+                    resp = dataclasses.replace(prev, violations=list(prev.violations)) if dataclasses.is_dataclass(prev) else \
+                        Duck(**dict(vars(prev), violations=list(prev.violations)))  # equal, distinct
+                    desc["response_source"] = "copy of the previous response"
                 ctx.count("treg_equal_distinct_responses")
             else:
                 resp = gen_response(ctx, rng, desc)
+                if rich and rng.random() < 0.15:
+                    f = rng.random()
+                    if f < 0.5:
+                        resp = Duck(agent_id=resp.agent_id, threat_level=resp.threat_level, action=resp.action, signal1=resp.signal1,
+                                    signal2=resp.signal2, violations=resp.violations, timestamp=resp.timestamp, is_anergic=resp.is_anergic)
+                    else:
+                        resp.violations = tuple(resp.violations)
+                    ctx.count("treg_unusual_response_objects")
             prev = resp
-            del hits[:]
+            del _HITS[:]
             before = (resp.threat_level.value, resp.action.value)
             desc["response"] = {"level": before[0], "action": before[1], "signal2": resp.signal2.value, "violations": list(resp.violations)}
             desc["record"] = {"clean_inspections": rec.clean_inspections, "recent_update": rec.recent_update,
                               "tolerated": sorted(rec.tolerated_violations)}
-            res = treg.evaluate(resp, rec)
+            desc["rules_now"] = describe_rules(treg)
+            desc["stability_threshold_now"] = treg.stability_threshold
+            raised0 = ctx.counters.get("rule_conditions_raised", 0)
+            try:
+                res = treg.evaluate(resp, rec)
+            except Exception as e:
+                if ctx.counters.get("rule_conditions_raised", 0) == raised0:
+                    raise       # not an exception of a generated rule: a harness error, not a verdict
+                # a rule's condition raised: the exception is the caller's; the filter must go on obeying the statement afterwards
+                ctx.count("treg_evaluations_raised")
+                top["series"].append({"response": desc["response"], "raised": type(e).__name__})
+                continue
             ctx.count("treg_evaluations")
             if step:
                 ctx.count("treg_evaluations_on_used_instance")
@@ -644,12 +1229,13 @@ def case_treg(ctx, rng):
             check_tolerance(ctx, "treg", before, res.modified_action.value, res.suppressed, desc)
             if res.suppressed:
                 ctx.count("treg_suppressed")
-            if hits:
+            if _HITS:
                 ctx.count("treg_rule_hits")
-            if res.suppressed or hits or before[0] == "critical":
+            if res.suppressed or _HITS or before[0] == "critical":
+                reason = res.suppression_reason or ""
                 ctx.nontrivial(("treg", before, res.suppressed, res.modified_action.value,
-                                "stable" if res.suppression_reason == "stable_agent" else (res.suppression_reason or "").split("-")[0],
-                                len(rules)))
+                                "stable" if reason == "stable_agent" else reason.split("-")[0][-14:],
+                                len(rdesc)))
                 sample_once(ctx, {"kind": "treg", "response": before, "result": desc["result"], "rules": rdesc})
             # the record moves on the way ImmuneSystem.inspect moves it, and time passes
             r = rng.random()
@@ -659,6 +1245,11 @@ def case_treg(ctx, rng):
                 clock.advance(rng.choice([1, 3599, 3601]))
             if 0.5 < r < 0.6:
                 rec.mark_updated()
+            if rich and rng.random() < 0.1 and isinstance(resp.violations, list):
+                resp.violations.append("mutated after the call")   # an input changed after the call (it is evaluated again later)
+
+
+AGENT_IDS = ["agent", "agent", "Agent", "AGENT", "", "a.*[b", "%s {0} {agent}", "nul\x00id", "two\nlines", "\ud800lone", StrSub("agent"), "caf\u00e9 \u2603"]
 
 
 # ------------------------------------------------------------------ end-to-end histories
@@ -742,12 +1333,23 @@ def emit(rng, style, i):
     return out, rt, conf, err
 
 
+class Box:
+    """one system under test, watched through one harness per agent; `sys` is re-bound when the system is duplicated"""
+
+    def __init__(self, system):
+        self.sys = system
+        self.members = []
+
+
 class E2E:
-    def __init__(self, ctx, rng, desc, sizes=None, lenient=False):
+    def __init__(self, ctx, rng, desc, sizes=None, lenient=False, box=None, agent="agent", rich=False):
         from operon_ai.surveillance.immune_system import ImmuneSystem
         self.ctx = ctx
         self.rng = rng
         self.desc = desc
+        self.agent = agent
+        self.rich = rich
+        self.nlog = 0
         if sizes is not None:
             mo, ws, mts = sizes
         else:
@@ -756,26 +1358,51 @@ class E2E:
             if rng.random() < 0.02:
                 ws = max(1, mo - 1)
             mts = rng.choice([1, 2, 3, 10, 10, 15])
-        self.mo, self.ws = mo, ws
         self.thr_repeat = rng.choice([1, 2, 3, 3, 3, 5])
         self.thr_anergy = rng.choice([1, 2, 2, 3, 5])
-        self.hits = []
-        self.sys = ImmuneSystem(min_training_samples=mts, min_observations=mo, window_size=ws)
-        rules, rdesc = gen_rules(ctx, rng, self.hits, nmax=3)
-        if lenient:
-            # a rule that is allowed to touch CONFIRMED responses and tends to match them on every sighting
-            kind = rng.choice(["always", "recent_update", "signal2", "signal2", "few_violations", "clean_streak"])
-            arg = {"signal2": rng.choice(["manual", "repeat", "cross", "canary"]), "few_violations": 5, "clean_streak": 0}.get(kind)
-            rule, d = make_rule(ctx, self.hits, kind, arg, rng.choice(["confirmed", "confirmed", "critical"]), kind + "-lenient")
-            at = rng.randint(0, len(rules))
-            rules.insert(at, rule)
-            rdesc.insert(at, d)
-        self.sys.treg.rules = rules
-        self.sys.treg.stability_threshold = rng.choice([1, 2, 3, 100])
-        self.sys.register_agent("agent")
-        desc["config"] = {"min_observations": mo, "window_size": ws, "min_training_samples": mts,
-                          "repeated_anomaly_threshold": self.thr_repeat, "anergy_threshold": self.thr_anergy,
-                          "stability_threshold": self.sys.treg.stability_threshold, "rules": rdesc}
+        if box is None:
+            if rich and rng.random() < 0.3:
+                from operon_ai.surveillance.memory import ImmuneMemory
+                from operon_ai.surveillance.thymus import Thymus
+                from operon_ai.surveillance.treg import RegulatoryTCell
+                system = ImmuneSystem(min_training_samples=mts, min_observations=mo, window_size=ws,
+                                      thymus=Thymus(min_training_samples=99, tolerance=rng.choice([2.0, 0.5, 3])),
+                                      treg=RegulatoryTCell(stability_threshold=7), memory=ImmuneMemory(capacity=rng.choice([1, 4, 1000])))
+                ctx.count("e2e_systems_built_from_given_components")
+            else:
+                system = ImmuneSystem(min_training_samples=mts, min_observations=mo, window_size=ws)
+            rules, rdesc = gen_rules(ctx, rng, nmax=3, rich=rich)
+            if lenient:
+                # a rule that is allowed to touch CONFIRMED responses and tends to match them on every sighting
+                kind = rng.choice(["always", "recent_update", "signal2", "signal2", "few_violations", "clean_streak"])
+                arg = {"signal2": rng.choice(["manual", "repeat", "cross", "canary"]), "few_violations": 5, "clean_streak": 0}.get(kind)
+                rule, d = make_rule(ctx, kind, arg, rng.choice(["confirmed", "confirmed", "critical"]), kind + "-lenient")
+                at = rng.randint(0, len(rules))
+                rules.insert(at, rule)
+                rdesc.insert(at, d)
+            system.treg.rules = rules
+            system.treg.stability_threshold = rng.choice([1, 2, 3, 100])
+            if rich and rng.random() < 0.3:
+                system.memory.capacity = rng.choice([0, 1, 2, 3])
+            if rich and rng.random() < 0.2:
+                system.thymus.tolerance = rng.choice([0, 0.0, 1e-300, 0.5, 10, Fraction(1, 2), True])
+            box = Box(system)
+            desc["config"] = {"min_observations": mo, "window_size": ws, "min_training_samples": mts,
+                              "stability_threshold": system.treg.stability_threshold, "rules": rdesc,
+                              "memory_capacity": system.memory.capacity, "thymus_tolerance": system.thymus.tolerance}
+        else:
+            # a further agent on a system that exists already; the system's public size settings are assigned first, so the
+            # new agent's display is built from the CURRENT values
+            if rng.random() < 0.6:
+                box.sys.min_observations = mo
+                box.sys.window_size = ws
+            mo, ws = box.sys.min_observations, box.sys.window_size
+        self.box = box
+        box.members.append(self)
+        self.mo, self.ws = mo, ws
+        box.sys.register_agent(agent)
+        desc.setdefault("agents", {})[repr(agent)] = {"min_observations": mo, "window_size": ws,
+                                                      "repeated_anomaly_threshold": self.thr_repeat, "anergy_threshold": self.thr_anergy}
         self.model = None
         self.remembered = set()
         self.raw = []
@@ -790,15 +1417,27 @@ class E2E:
         self.hidden_clean = False  # a clean inspection with a remembered signature happened since the streak last restarted
         self.last_hidden = False   # ... and the last inspection was a violating one without second signal
         self.anergy_affected = False  # such an inspection was then dismissed as a false alarm (sticky until retraining)
+        self.amended = False
+
+    @property
+    def sys(self):
+        return self.box.sys
 
     def log(self, *op):
-        self.desc["ops"].append(list(op))
+        self.nlog += 1
+        if self.nlog <= 400:
+            self.desc["ops"].append(list(op) if len(self.box.members) == 1 else [self.agent] + list(op))
+        elif self.nlog == 401:
+            self.desc["ops"].append("... (later operations not listed)")
 
     # -- workload steps ------------------------------------------------
     def record(self, out, rt, conf, err=None):
         """one observation into the system under test and into the harness' own copy of the window"""
         from operon_ai.surveillance.display import Observation
-        self.sys.record_observation("agent", out, rt, conf, err)
+        if err is None and self.i % 3:
+            self.sys.record_observation(self.agent, out, rt, conf)
+        else:
+            self.sys.record_observation(self.agent, output=out, response_time=rt, confidence=conf, error=err)
         self.win.append(Observation(output=out, response_time=rt, confidence=conf, error=err))
         if len(self.win) > self.ws:
             del self.win[0]
@@ -815,42 +1454,42 @@ class E2E:
     def canaries(self, n, p):
         for _ in range(n):
             ok = self.rng.random() < p
-            self.sys.record_canary_result("agent", ok)
+            self.sys.record_canary_result(self.agent, ok)
             self.can.append(ok)
         self.log("canary", n, p)
 
     def clear(self):
-        self.sys.displays["agent"].clear()
+        self.sys.displays[self.agent].clear()
         del self.win[:]
         del self.can[:]
         self.log("display.clear")
+
+    def reregister(self):
+        """the agent is registered again under the same name: a new, empty display (built from the system's current size
+        settings) and a new tolerance record; the trained watcher stays"""
+        if self.rng.random() < 0.5:
+            self.sys.min_observations = self.rng.choice([1, 2, 3, self.mo])
+            self.sys.window_size = max(self.sys.min_observations, self.rng.choice([1, 3, 8, self.ws]))
+        self.sys.register_agent(self.agent)
+        self.mo, self.ws = self.sys.min_observations, self.sys.window_size
+        del self.win[:]
+        del self.can[:]
+        self.full_violating = False
+        self.log("register_agent again", {"min_observations": self.mo, "window_size": self.ws})
+        self.ctx.count("e2e_reregistrations")
 
     def fresh_fingerprint(self):
         """the current fingerprint, recomputed by a display built for this one call from the harness' own copy of the
         window -- never read from the display under test (which may hold state between calls)"""
         from operon_ai.surveillance.display import MHCDisplay
-        d = MHCDisplay(agent_id="agent", window_size=self.ws, min_observations=self.mo,
+        d = MHCDisplay(agent_id=self.agent, window_size=self.ws, min_observations=self.mo,
                        observations=list(self.win), canary_results=list(self.can))
         return d.generate_peptide()
 
-    def train(self):
-        """-> True when the window was accepted"""
-        from operon_ai.surveillance.thymus import SelectionResult
-        self.ctx.count("train_calls")
-        try:
-            res = self.sys.train_agent("agent")
-        except Exception as e:  # window not accepted
-            self.ctx.count("train_raised")
-            self.log("train", "raised " + type(e).__name__)
-            return None
-        self.log("train", res.value)
-        if res != SelectionResult.POSITIVE:
-            self.ctx.count("train_not_positive")
-            return False
-        self.ctx.count("windows_accepted")
-        tc = self.sys.tcells["agent"]
-        tc.repeated_anomaly_threshold = self.thr_repeat
-        tc.anergy_threshold = self.thr_anergy
+    def install_spy(self):
+        tc = self.sys.tcells[self.agent]
+        if "inspect" in vars(tc):
+            return
         orig = tc.inspect
         raw = self.raw
 
@@ -860,21 +1499,45 @@ class E2E:
             return r
 
         tc.inspect = spy
+
+    def remove_spy(self):
+        tc = self.sys.tcells.get(self.agent)
+        if tc is not None and "inspect" in vars(tc):
+            del tc.inspect
+
+    def train(self):
+        """-> True when the window was accepted"""
+        from operon_ai.surveillance.thymus import SelectionResult
+        self.ctx.count("train_calls")
+        try:
+            res = self.sys.train_agent(self.agent)
+        except Exception as e:  # window not accepted
+            self.ctx.count("train_raised")
+            self.log("train", "raised " + type(e).__name__)
+            return None
+        self.log("train", res.value)
+        if res != SelectionResult.POSITIVE:
+            self.ctx.count("train_not_positive")
+            return False
+        self.ctx.count("windows_accepted")
+        tc = self.sys.tcells[self.agent]
+        tc.repeated_anomaly_threshold = self.thr_repeat
+        tc.anergy_threshold = self.thr_anergy
+        self.install_spy()
         self.model = WatcherModel(self.thr_repeat, self.thr_anergy)
         self.hidden_clean = self.last_hidden = self.anergy_affected = False
         self.full_violating = False
         self.trained = True
+        self.amended = False
         return True
 
     def current(self):
-        """harness-side reading of the current behaviour against the trained profile (own comparisons)"""
+        """harness-side reading of the current behaviour against the watcher's current baseline (own comparisons on the public
+        numbers of the profile: the ones training produced, or the ones the harness assigned since)"""
         pep = self.fresh_fingerprint()
         if pep is None:
             return None, None, None
-        prof = self.sys.profiles["agent"]
-        spec = {"len": prof.output_length_bounds, "rt": prof.response_time_bounds, "conf": prof.confidence_bounds,
-                "err_max": prof.error_rate_max, "vocab": prof.valid_vocabulary_hashes, "struct": prof.valid_structure_hashes,
-                "canary_min": prof.canary_accuracy_min}
+        spec = spec_of(self.sys.tcells[self.agent].profile)
         vals = {"len": pep.output_length_mean, "rt": pep.response_time_mean, "conf": pep.confidence_mean, "err": pep.error_rate,
                 "vocab": pep.vocabulary_hash, "struct": pep.structure_hash, "canary": pep.canary_accuracy}
         return pep, vals, baseline_truth(spec, vals)
@@ -882,7 +1545,19 @@ class E2E:
     def inspect(self, after_training=False):
         pep, vals, truth = self.current()
         del self.raw[:]
-        r = self.sys.inspect("agent")
+        raised0 = self.ctx.counters.get("rule_conditions_raised", 0)
+        try:
+            r = self.sys.inspect(self.agent)
+        except Exception as e:
+            if self.ctx.counters.get("rule_conditions_raised", 0) == raised0:
+                raise       # not the exception of a generated rule: a harness error, not a verdict
+            # a tolerance rule's condition raised: the exception is the caller's. The watcher had been consulted (its streak
+            # moved on); nothing was reported, so nothing is judged -- but every later inspection is.
+            self.ctx.count("e2e_inspections_raised")
+            self.log("inspect", "raised " + type(e).__name__)
+            if pep is not None:
+                self.model.inspect(bool(truth["violated"]), truth["canary_failed"])
+            return None
         self.ctx.count("e2e_inspections")
         if pep is None:
             st = {"no_fingerprint": True}
@@ -911,6 +1586,11 @@ class E2E:
             self.ctx.count("e2e_inspections_with_remembered_signature")
             if viol and not st["anergic"]:
                 self.ctx.count("e2e_memory_as_second_signal")
+        if self.amended:
+            self.ctx.count("e2e_inspections_after_baseline_amendment")
+            if not viol:
+                self.ctx.count("e2e_inspections_inside_amended_baseline")
+            self.amended = False
         self.log("inspect", {"violated": truth["violated"], "remembered": mem, "anergic": st["anergic"]},
                  "%s/%s" % (r.threat_level.value, r.action.value))
         judged = judge(self.ctx, "e2e", r, st, self.desc)
@@ -946,19 +1626,19 @@ class E2E:
         return r
 
     def flag(self):
-        self.sys.flag_agent("agent", self.rng.choice(["operator", "ticket 4711"]))
+        self.sys.flag_agent(self.agent, self.rng.choice(["operator", "ticket 4711"] if not self.rich else FLAG_REASONS))
         if self.trained:
             self.model.set_flag()
         self.log("flag")
 
     def reset(self):
-        self.sys.tcells["agent"].reset()
+        self.sys.tcells[self.agent].reset()
         self.model.reset()
         self.hidden_clean = self.last_hidden = False
         self.log("tcell.reset")
 
     def rwc(self):
-        self.sys.tcells["agent"].reset_without_confirmation()
+        self.sys.tcells[self.agent].reset_without_confirmation()
         self.model.reset_without_confirmation()
         if self.last_hidden:
             self.anergy_affected = True
@@ -973,25 +1653,246 @@ class E2E:
             return
         key = (pep.vocabulary_hash, pep.structure_hash) if current else ("feedfacecafe", pep.structure_hash)
         lvl = self.rng.choice(["confirmed", "critical"])
-        self.sys.memory.store(ThreatSignature(agent_id="agent", vocabulary_hash=key[0], structure_hash=key[1],
-                                              violation_types=("response_time",), threat_level=ThreatLevel(lvl),
-                                              effective_response=ResponseAction("isolate" if lvl == "confirmed" else "shutdown")))
+        sig = ThreatSignature(agent_id=self.agent, vocabulary_hash=key[0], structure_hash=key[1],
+                              violation_types=("response_time",), threat_level=ThreatLevel(lvl),
+                              effective_response=ResponseAction("isolate" if lvl == "confirmed" else "shutdown"))
         self.remembered.add(key)
+        if self.rich and self.rng.random() < 0.4:
+            # through the persistence API: exported by another memory, imported into this one (with an unparsable item at the end
+            # of the batch now and then: the import raises, what was imported before it stays)
+            from operon_ai.surveillance.memory import ImmuneMemory
+            other = ImmuneMemory(capacity=5)
+            other.store(sig)
+            data = other.export_signatures()
+            if self.rng.random() < 0.3:
+                data.append(dict(data[0], threat_level="bogus"))
+            try:
+                self.sys.memory.import_signatures(data)
+            except (ValueError, KeyError):
+                self.ctx.count("e2e_memory_imports_raised")
+            self.log("memory.import_signatures", "current hashes" if current else "other hashes", lvl)
+            self.ctx.count("e2e_memory_imports")
+            return
+        self.sys.memory.store(sig)
         self.log("memory.store", "current hashes" if current else "other hashes", lvl)
+
+    # -- round-4 classes: settings after construction, amended baselines, read-only calls, maintenance, duplicates ------
+    def retune(self):
+        """the watcher's public thresholds / flag assigned mid-session (the only way to configure a watcher built by train_agent)"""
+        tc = self.sys.tcells[self.agent]
+        r = self.rng.random()
+        if r < 0.55:
+            tok = self.rng.choice(THR_TOKENS)
+            v = thr_value(tok, self.model.false_alarms)
+            tc.anergy_threshold = v
+            self.thr_anergy = self.model.thr_anergy = v
+            self.log("anergy_threshold =", tok, v)
+            if self.model.anergic:
+                self.ctx.count("e2e_desensitised_by_threshold_change")
+        elif r < 0.85:
+            tok = self.rng.choice(THR_TOKENS)
+            v = thr_value(tok, self.model.streak)
+            tc.repeated_anomaly_threshold = v
+            self.thr_repeat = self.model.thr_repeat = v
+            self.log("repeated_anomaly_threshold =", tok, v)
+        else:
+            tc.manual_flag = None
+            self.model.flag = False
+            self.log("manual_flag = None")
+        self.ctx.count("e2e_settings_changed_mid_session")
+
+    def amend(self):
+        """an operator amends the trained baseline in place (the profile object the watcher holds): widened to accept the
+        current behaviour, or narrowed to reject it; the next inspection sees an equal fingerprint"""
+        pep, vals, truth = self.current()
+        if pep is None:
+            return
+        prof = self.sys.tcells[self.agent].profile
+        spec = spec_of(prof)
+        if self.rng.random() < 0.65:
+            spec_include(spec, vals)
+            how = "accept the current behaviour"
+        else:
+            f = self.rng.choice(FIELDS7_)
+            spec_exclude(spec, vals, f, self.rng.random() < 0.5)
+            how = "reject the current " + f
+        push_spec(prof, spec, self.rng)
+        self.amended = True
+        self.log("amend-baseline", how, spec)
+        self.ctx.count("e2e_baseline_amendments")
+
+    def read_only(self):
+        """reporting / read-only API anywhere in a session: no later verdict may depend on it"""
+        s = self.sys
+        r = self.rng.random()
+        if r < 0.2:
+            try:
+                s.health()
+                s.memory.stats()
+            except ZeroDivisionError:
+                # the utilisation figure of a memory of capacity 0 (a reporting matter outside this property's statement)
+                self.ctx.count("memory_stats_raised_on_zero_capacity")
+        elif r < 0.35:
+            s.memory.export_signatures()
+            for sig in s.memory.signatures[:3]:
+                sig.matches(sig)
+                sig.matches(sig, partial=True)
+                sig.to_dict()
+        elif r < 0.55:
+            d = s.displays[self.agent]
+            p1 = d.generate_peptide()
+            tc = s.tcells.get(self.agent)
+            if p1 is not None and tc is not None:
+                tc.profile.check(p1)
+                p2 = d.generate_peptide()
+                p1.similarity(p2)
+                p1 == p2
+        elif r < 0.7:
+            tc = s.tcells.get(self.agent)
+            if tc is not None:
+                tc.is_anergic
+                tc.state.is_activated
+                repr(tc)
+        elif r < 0.85:
+            rec = s.treg.get_record(self.agent)
+            if rec is not None:
+                rec.is_stable(1)
+                rec.recent_update
+            s.thymus.get_profile(self.agent)
+            s.thymus.get_profile("nobody")
+        else:
+            repr(s.memory)
+            if self.ws <= 10:
+                repr(s)
+        self.log("read-only calls")
+        self.ctx.count("e2e_readonly_calls")
+
+    def maintain(self):
+        """maintenance / settings of the shared components mid-session"""
+        from operon_ai.surveillance.memory import ImmuneMemory, ThreatSignature
+        from operon_ai.surveillance.treg import RegulatoryTCell
+        from operon_ai.surveillance.types import ThreatLevel, ResponseAction
+        s = self.sys
+        r = self.rng.random()
+        if r < 0.2:
+            n = s.memory.prune_old(self.rng.choice([timedelta(0), timedelta(days=1), timedelta(days=100000)]))
+            self.log("memory.prune_old", n)
+        elif r < 0.35:
+            s.memory.capacity = self.rng.choice([0, 1, 2, 1000])
+            self.log("memory.capacity =", s.memory.capacity)
+        elif r < 0.45:
+            s.memory = ImmuneMemory(capacity=self.rng.choice([1, 2, 1000]))
+            for m in self.box.members:
+                m.remembered.clear()        # a fresh memory remembers nothing
+            self.log("memory = ImmuneMemory()")
+        elif r < 0.55:
+            q = ThreatSignature(agent_id=self.agent, vocabulary_hash="feedfacecafe", structure_hash="0" * 12,
+                                violation_types=("response_time",), threat_level=ThreatLevel.CONFIRMED,
+                                effective_response=ResponseAction.ISOLATE)
+            s.memory.recall(q)
+            s.memory.recall(q, partial=True)
+            self.log("memory.recall")
+        elif r < 0.7:
+            rules = s.treg.rules
+            if isinstance(rules, list):
+                if rules and self.rng.random() < 0.5:
+                    rules.pop(self.rng.randrange(len(rules)))
+                else:
+                    rules.insert(self.rng.randint(0, len(rules)), gen_rule(self.ctx, self.rng, 50 + len(rules), True)[0])
+            s.treg.stability_threshold = self.rng.choice([0, 1, 2, 2.5, True, 100])
+            self.log("treg rules / stability_threshold changed", describe_rules(s.treg), s.treg.stability_threshold)
+        elif r < 0.78:
+            old = s.treg
+            s.treg = RegulatoryTCell(rules=list(old.rules) if isinstance(old.rules, list) else [], stability_threshold=self.rng.choice([1, 100]))
+            if self.rng.random() < 0.6:
+                for m in self.box.members:
+                    s.treg.register_agent(m.agent)
+            self.log("treg = RegulatoryTCell(...)")
+        elif r < 0.9:
+            rec = s.treg.get_record(self.agent)
+            if rec is not None:
+                rec.update_tolerance_duration = self.rng.choice([timedelta(0), timedelta(seconds=0.5), timedelta(days=3)])
+                rec.add_tolerated_violation(self.rng.choice(["response_time", "output_length", "confidence"]))
+                self.log("record.update_tolerance_duration =", str(rec.update_tolerance_duration))
+        elif r < 0.95:
+            d = s.displays[self.agent]
+            self.mo = d.min_observations = self.rng.choice([1, 2, self.mo, self.mo + 1])
+            self.log("display.min_observations =", self.mo)
+        else:
+            # training settings assigned after construction: they govern the NEXT training (whatever it accepts must inspect clean)
+            s.thymus.tolerance = self.rng.choice([0, 1e-300, 0.5, 2.0, 10, Fraction(3, 2), True])
+            s.thymus.variance_threshold = self.rng.choice([0, 0.5, 5])
+            s.min_training_samples = self.rng.choice([1, 2, 3, 10])
+            s.thymus.min_training_samples = self.rng.choice([0, 1, s.min_training_samples, s.min_training_samples + 1])
+            self.log("training settings", {"tolerance": s.thymus.tolerance, "variance_threshold": s.thymus.variance_threshold,
+                                           "min_training_samples": [s.min_training_samples, s.thymus.min_training_samples]})
+        self.ctx.count("e2e_maintenance_calls")
+
+    def duplicate(self):
+        """copy / deepcopy / pickle round trip of the whole system (or of its components): the duplicate takes over"""
+        how = self.rng.choice(["copy", "deepcopy", "deepcopy", "pickle", "pickle", "components"])
+        box = self.box
+        if how == "copy":
+            box.sys = copy.copy(box.sys)
+        else:
+            for m in box.members:
+                m.remove_spy()
+            if how == "components":
+                s = box.sys
+                s.memory = dup_object(s.memory, "pickle")
+                s.treg = dup_object(s.treg, "deepcopy")
+                s.thymus = dup_object(s.thymus, "copy")
+                tc = s.tcells.get(self.agent)
+                if tc is not None:
+                    s.tcells[self.agent] = dup_object(tc, self.rng.choice(["deepcopy", "pickle"]))
+                    s.profiles[self.agent] = s.tcells[self.agent].profile
+            else:
+                box.sys = dup_object(box.sys, how)
+            for m in box.members:
+                if m.trained and m.agent in box.sys.tcells:
+                    m.install_spy()
+        self.log("duplicate", how)
+        self.ctx.count("e2e_duplicates")
 
 
 def case_e2e(ctx, rng):
-    from operon_ai.surveillance import treg as treg_mod
+    from operon_ai.surveillance import treg as treg_mod, display as display_mod
     clock = vclock.VClock(base=1.8e9)
-    with vclock.patched(clock, treg_mod):
-        _case_e2e(ctx, rng, clock)
+    # the display reads the virtual clock as well: two fingerprints of an unchanged window are equal in every field
+    with vclock.patched(clock, treg_mod, display_mod):
+        mode = rng.choice(["single"] * 7 + ["two_systems", "two_agents", "two_agents"])
+        desc = {"kind": "e2e", "ops": [], "mode": mode}
+        rich = rng.random() < 0.5 or mode != "single"
+        first = _e2e_steps(ctx, rng, clock, desc, None, "agent" if not rich else rng.choice(AGENT_IDS), rich)
+        if mode == "single":
+            for _ in first:
+                pass
+            return
+        ctx.count("e2e_" + mode + "_cases")
+        box = next(first, None)     # the first harness yields its box once the system exists
+        if box is None:
+            return
+        rng2 = random.Random(rng.random())
+        if mode == "two_systems":
+            desc2 = {"kind": "e2e", "ops": [], "mode": mode, "other_system": desc}
+            second = _e2e_steps(ctx, rng2, clock, desc2, None, rng.choice(AGENT_IDS), True)
+        else:
+            other = rng.choice([a for a in AGENT_IDS if a != box.members[0].agent])
+            second = _e2e_steps(ctx, rng2, clock, desc, box, other, True)
+        live = [first, second]
+        while live:
+            g = rng.choice(live)
+            if next(g, "done") == "done":
+                live.remove(g)
 
 
-def _case_e2e(ctx, rng, clock):
-    desc = {"kind": "e2e", "ops": []}
+def _e2e_steps(ctx, rng, clock, desc, box, agent, rich):
+    """one agent's history as a generator: yields its Box first, then after every inspection, so that two histories (two
+    systems, or two agents of one system) can be interleaved"""
     template = rng.choice(["incident", "incident", "anergy", "random", "random", "rollover", "recurrence"])
-    desc["template"] = template
-    h = E2E(ctx, rng, desc, lenient=template == "recurrence")
+    desc.setdefault("template", template)
+    h = E2E(ctx, rng, desc, lenient=template == "recurrence", box=box, agent=agent, rich=rich)
+    yield h.box
     base = gen_style(rng)
     nonfinite = rng.random() < 0.04
     if template == "rollover":
@@ -1020,10 +1921,10 @@ def _case_e2e(ctx, rng, clock):
             ctx.count("histories_never_trained")
             return
     h.inspect(after_training=True)
+    yield
 
     kinds = ["slow", "fast", "long", "lowconf", "errors", "vocab", "structure", "slight", "normal", "normal"]
     full = h.ws + rng.choice([0, 1, 5])
-    budget = 16
     if template == "incident":
         k = rng.choice(["slow", "long", "lowconf", "errors", "slow", "vocab"])
         program = [(k, rng.choice([h.ws, h.ws // 2 + 1, 3]), h.thr_repeat + rng.choice([0, 1])), ("normal", full, rng.choice([1, 2])),
@@ -1040,18 +1941,16 @@ def _case_e2e(ctx, rng, clock):
                    ("normal", full, rng.choice([1, 1, 2])),
                    (rng.choice([k, "slow", "vocab"]), rng.choice([1, 2, h.ws]), rng.choice([1, 2, h.thr_repeat])),
                    ("normal", full, rng.choice([1, 2]))]
-        budget = 24
     elif template == "recurrence":
         # one threat, sighted again and again on the same system while a tolerance rule keeps matching it
         k = rng.choice(["slow", "slow", "long", "lowconf", "errors"])
         if rng.random() < 0.6:
-            h.sys.mark_agent_updated("agent")
+            h.sys.mark_agent_updated(h.agent)
             h.log("mark_updated")
         if rng.random() < 0.6:
             h.flag()
         program = [(k, rng.choice([h.ws, h.ws // 2 + 1, 3]), h.thr_repeat + rng.choice([1, 2, 4])),
                    (k, rng.choice([1, 2]), rng.choice([1, 2])), ("normal", full, 1), (k, full, 2)]
-        budget = 24
     else:
         program = [(rng.choice(kinds), rng.choice([1, 2, h.ws // 2 + 1, h.ws, full]), rng.randint(1, 4)) for _ in range(rng.randint(2, 5))]
     budget = 16
@@ -1066,13 +1965,17 @@ def _case_e2e(ctx, rng, clock):
                 break
             if c == 0 or template != "anergy" or pi:
                 h.observe(style, per, kind)
+            if rich:
+                for _ in e2e_rich_steps(ctx, rng, clock, h):
+                    budget -= 1
+                    yield
             r = rng.random()
             if r < 0.12:
                 h.flag()
             elif r < 0.18:
                 h.canaries(rng.randint(1, 6), rng.choice([1.0, 0.5, 0.0]))
             elif r < 0.24:
-                h.sys.mark_agent_updated("agent")
+                h.sys.mark_agent_updated(h.agent)
                 h.log("mark_updated")
             elif r < 0.26:
                 dt = rng.choice([1, 3599, 3600, 86400])
@@ -1087,8 +1990,10 @@ def _case_e2e(ctx, rng, clock):
                     ctx.count("retrainings_accepted")
                     h.inspect(after_training=True)
                     budget -= 1
+                    yield
                     continue
             h.inspect()
+            yield
             budget -= 1
             r = rng.random()
             want_rwc = 0.75 if (template == "anergy" and pi == 0) else (0.35 if h.last_level == "suspicious" else 0.05)
@@ -1101,7 +2006,109 @@ def _case_e2e(ctx, rng, clock):
     for fp in h.reached:
         ctx.nontrivial(fp)
     if h.reached:
-        sample_once(ctx, {"kind": "e2e-" + template, "template": template, "config": desc["config"], "ops": desc["ops"][:40]})
+        sample_once(ctx, {"kind": "e2e-" + template, "template": template, "config": desc.get("config"), "ops": desc["ops"][:40]})
+
+
+def e2e_rich_steps(ctx, rng, clock, h):
+    """operations of the round-3 / round-4 classes, placed between the observations and the next inspection; yields after every
+    inspection it makes itself"""
+    r = rng.random()
+    if r < 0.14:
+        h.retune()
+    elif r < 0.30:
+        # inspect, amend the baseline in place, inspect the unchanged window again (an equal fingerprint)
+        h.inspect()
+        yield
+        if rng.random() < 0.25:
+            h.flag()
+        h.amend()
+        if rng.random() < 0.3:
+            h.read_only()
+    elif r < 0.42:
+        h.read_only()
+    elif r < 0.52:
+        h.maintain()
+    elif r < 0.60:
+        h.duplicate()
+    elif r < 0.63:
+        h.reregister()
+        if rng.random() < 0.7:
+            h.observe(gen_style(rng), max(h.mo, 1), "after re-registration")
+    elif r < 0.67:
+        dt = rng.choice([0.5, 86401, 3 * 86400, 40 * 86400, -3600, -86400])
+        clock.offset += dt     # negative: the clock steps backwards
+        h.log("clock", dt)
+        ctx.count("clock_jumps")
+        if abs(dt) > 86400:
+            ctx.count("clock_jumps_over_a_day")
+    elif r < 0.675:
+        gc.collect()
+        ctx.count("gc_collections")
+    elif r < 0.72 and h.trained:
+        # false alarms dismissed one after the other, then the threshold is tightened to what is on record
+        for _ in range(rng.randint(1, 3)):
+            h.inspect()
+            yield
+            h.rwc()
+        h.retune()
+
+
+def case_long_e2e(ctx, rng, nsteps):
+    """one system, one agent, one very long session on tiny windows (memory of small capacity evicting, many retrainings)"""
+    from operon_ai.surveillance import treg as treg_mod, display as display_mod
+    clock = vclock.VClock(base=1.8e9)
+    desc = {"kind": "e2e-long", "ops": [], "template": "long"}
+    with vclock.patched(clock, treg_mod, display_mod):
+        h = E2E(ctx, rng, desc, sizes=(1, rng.choice([1, 2, 3]), 1), lenient=True, rich=True)
+        h.sys.memory.capacity = rng.choice([2, 5, 1000])
+        base = gen_style(rng)
+        h.observe(base, h.ws, "base")
+        if not h.train():
+            return
+        h.inspect(after_training=True)
+        styles = [base] + [drift(rng, base, k) for k in ("slow", "vocab", "long", "errors", "structure", "lowconf")]
+        for step in range(nsteps):
+            style = styles[0] if rng.random() < 0.4 else rng.choice(styles)
+            if rng.random() < 0.05:
+                style = drift(rng, base, "vocab")
+            h.observe(style, rng.choice([1, 1, h.ws]), "obs")
+            r = rng.random()
+            if r < 0.05:
+                h.flag()
+            elif r < 0.08:
+                h.canaries(1, rng.choice([1.0, 0.0]))
+            elif r < 0.11:
+                h.retune()
+            elif r < 0.13:
+                h.read_only()
+            elif r < 0.15:
+                h.maintain()
+            elif r < 0.16:
+                h.preload(current=True)
+            elif r < 0.17:
+                h.inspect()
+                h.amend()
+            elif r < 0.19:
+                if h.train():
+                    h.inspect(after_training=True)
+                    continue
+            elif r < 0.192:
+                h.duplicate()
+            h.inspect()
+            r = rng.random()
+            if r < 0.15:
+                h.rwc()
+            elif r < 0.25:
+                h.reset()
+            if step % 97 == 0:
+                # re-arm with usual thresholds so that the session does not stay desensitised for ever
+                tc = h.sys.tcells[h.agent]
+                tc.anergy_threshold = h.thr_anergy = h.model.thr_anergy = h.model.false_alarms + 2
+                tc.repeated_anomaly_threshold = h.thr_repeat = h.model.thr_repeat = rng.choice([1, 2, 3])
+        ctx.count("long_e2e_sessions")
+        ctx.maxc("longest_e2e_session", h.nlog)
+        for fp in h.reached:
+            ctx.nontrivial(fp)
 
 
 CORNER_SWEEP = [(cfg, val, field, nobs)
@@ -1131,11 +2138,21 @@ def case_corner(ctx, item):
 
 
 # ------------------------------------------------------------------ driver
+LONG_CASES = {"quick": (1, 1), "thorough": (6, 6)}          # (long T-cell histories, long end-to-end sessions)
+LONG_SIZE = {"quick": (22000, 2500), "thorough": (40000, 6000)}
+TZS = ["UTC0", "XKT-14", "UTC0", "XNT+11"]      # POSIX TZ strings (no zone database needed): UTC, UTC+14, UTC, UTC-11
+
+
 def plan(tier):
-    extra = 70000 if tier == "quick" else 1400000
+    extra = 70000 if tier == "quick" else 700000
+    if os.environ.get("VERIF_C17_EXTRA"):
+        # selftest accelerator: run only a PREFIX of the random cases. Case n is the same case in a prefix run and in a full run, so a
+        # violation found by a prefix run is found by the full run; a prefix run can never hold (the `require` minimums make it
+        # INCONCLUSIVE), it can only be VIOLATED earlier.
+        extra = min(extra, int(os.environ["VERIF_C17_EXTRA"]))
     quick = tier == "quick"
-    return {"cases": len(SWEEP) + len(CORNER_SWEEP) + extra, "shards": 8 if quick else 14, "min_nontrivial": 150,
-            "timeout": 600 if quick else 2400,
+    return {"cases": len(SWEEP) + len(CORNER_SWEEP) + sum(LONG_CASES[tier]) + extra, "shards": 8 if quick else 14, "min_nontrivial": 150,
+            "timeout": 600 if quick else 3600,
             "require": {"tcell_inspections": 60000, "desensitised_inspections": 3000, "in_baseline_with_second_signal": 3000,
                         "violating_without_second_signal": 8000, "two_signal_inspections": 8000, "boundary_fingerprints": 20000,
                         "treg_evaluations": 5000, "tolerance_critical_inputs": 1000, "tolerance_one_step_lowerings": 1000,
@@ -1144,21 +2161,149 @@ def plan(tier):
                         "e2e_tolerance_applied": 50, "windows_rejected_by_exception": 10, "corner_windows_accepted": 100,
                         "e2e_recalled_responses": 500, "e2e_recalled_tolerated_responses": 100,
                         "e2e_recovered_after_window_rollover": 100, "treg_evaluations_on_used_instance": 2000,
-                        "treg_equal_distinct_responses": 500}}
+                        "treg_equal_distinct_responses": 500,
+                        # round 4: settings after construction, amended baselines, value types, duplicates, several instances
+                        "tcell_settings_changed_mid_history": 2000, "tcell_desensitised_by_threshold_change": 300,
+                        "tcell_reinspections_inside_amended_baseline": 500, "tcell_baseline_amendments": 2000,
+                        "tcell_unusual_value_types": 3000, "tcell_duplicates": 300, "tcell_readonly_calls": 1000,
+                        "tcell_pairs_sharing_one_profile": 100, "treg_settings_changed_mid_series": 500, "treg_duplicates": 100,
+                        "treg_evaluations_raised": 20, "e2e_settings_changed_mid_session": 300,
+                        "e2e_desensitised_by_threshold_change": 50, "e2e_inspections_inside_amended_baseline": 100,
+                        "e2e_duplicates": 100, "e2e_readonly_calls": 200, "e2e_maintenance_calls": 150,
+                        "e2e_two_agents_cases": 50, "e2e_two_systems_cases": 30, "long_tcell_histories": 1, "long_e2e_sessions": 1,
+                        "cases_in_a_far_time_zone": 5000, "optimized_probe_cases": 200}}
+
+
+_API = {}       # "Class.member" -> number of calls seen by this shard
+_TZ = [None]
+
+
+def setup_shard(ctx):
+    """every public method / property of the anchored classes gets a counting wrapper (names enumerated at run time), so the
+    evidence lists the public API that no session ever called"""
+    import functools
+    from operon_ai.surveillance import tcell, treg, thymus, immune_system, display, memory, types
+    classes = [tcell.TCell, tcell.ImmuneResponse, treg.RegulatoryTCell, treg.ToleranceRecord, treg.SuppressionRule, treg.SuppressionResult,
+               thymus.Thymus, thymus.BaselineProfile, immune_system.ImmuneSystem, display.MHCDisplay, display.Observation,
+               memory.ImmuneMemory, memory.ThreatSignature, types.MHCPeptide, types.ActivationState]
+
+    def counting(key, fn):
+        @functools.wraps(fn)
+        def wrapper(*a, **kw):
+            _API[key] += 1
+            return fn(*a, **kw)
+        return wrapper
+
+    for cls in classes:
+        for name, member in list(vars(cls).items()):
+            if name.startswith("_"):
+                continue
+            key = "%s.%s" % (cls.__name__, name)
+            if isinstance(member, property) and member.fget is not None:
+                _API.setdefault(key, 0)
+                setattr(cls, name, property(counting(key, member.fget), member.fset, member.fdel, member.__doc__))
+            elif isinstance(member, classmethod):
+                _API.setdefault(key, 0)
+                setattr(cls, name, classmethod(counting(key, member.__func__)))
+            elif isinstance(member, staticmethod):
+                _API.setdefault(key, 0)
+                setattr(cls, name, staticmethod(counting(key, member.__func__)))
+            elif callable(member) and hasattr(member, "__code__"):
+                _API.setdefault(key, 0)
+                setattr(cls, name, counting(key, member))
+    _TZ[0] = os.environ.get("TZ")
+
+
+def teardown_shard(ctx):
+    ctx.maxc("api_public_members", len(_API))
+    ctx.maxc("api_public_members_called", sum(1 for v in _API.values() if v))
+    for key, v in sorted(_API.items()):
+        if not v:
+            ctx.count("api_never_called_in_shard:" + key)
+    if _TZ[0] is None:
+        os.environ.pop("TZ", None)
+    else:
+        os.environ["TZ"] = _TZ[0]
+    time.tzset()
+
+
+def set_zone(ctx, n):
+    """the process time zone is a function of the case number (so a replay runs in the same zone); local time and UTC differ
+    by up to 14 hours in half of the cases"""
+    tz = TZS[n % len(TZS)]
+    if os.environ.get("TZ") != tz:
+        os.environ["TZ"] = tz
+        time.tzset()
+    if tz != "UTC0":
+        ctx.count("cases_in_a_far_time_zone")
 
 
 def run_case(ctx, n):
+    global _CTX
+    _CTX = ctx
+    set_zone(ctx, n)
     if n < len(SWEEP):
         return case_table(ctx, SWEEP[n])
-    if n < len(SWEEP) + len(CORNER_SWEEP):
-        return case_corner(ctx, CORNER_SWEEP[n - len(SWEEP)])
+    n2 = n - len(SWEEP)
+    if n2 < len(CORNER_SWEEP):
+        return case_corner(ctx, CORNER_SWEEP[n2])
+    n2 -= len(CORNER_SWEEP)
+    nlt, nle = LONG_CASES[ctx.tier]
+    if n2 < nlt:
+        return case_long_tcell(ctx, ctx.rng("long-tcell", n2), LONG_SIZE[ctx.tier][0])
+    if n2 < nlt + nle:
+        return case_long_e2e(ctx, ctx.rng("long-e2e", n2), LONG_SIZE[ctx.tier][1])
     rng = ctx.rng(n)
     r = rng.random()
     if r < 0.60:
         return case_tcell(ctx, rng)
-    if r < 0.92:
+    if r < 0.935:
         return case_treg(ctx, rng)
     return case_e2e(ctx, rng)
+
+
+# ------------------------------------------------------------------ a small probe of every obligation under `python -O`
+PROBE_CASES = 900
+
+
+def probe_main():
+    """runs in a child interpreter started with -O (asserts stripped): the single-inspection table (every 5th entry), some corner
+    windows and a few hundred random cases of every kind; prints the violations as JSON"""
+    ctx = core.Ctx(PID, "quick", int(os.environ.get("VERIF_SEED", "0") or 0))
+    setup_shard(ctx)
+    total = len(SWEEP) + len(CORNER_SWEEP) + sum(LONG_CASES["quick"])
+    cases = list(range(0, len(SWEEP), 5)) + list(range(len(SWEEP), len(SWEEP) + len(CORNER_SWEEP), 7))
+    cases += list(range(total, total + PROBE_CASES))
+    for n in cases:
+        ctx.case = n
+        run_case(ctx, n)
+    sys.stdout.write("\nPROBE-RESULT " + json.dumps({"cases": len(cases), "optimized": not __debug__,
+                                                     "violations": ctx.violations, "counts": ctx.violation_counts}) + "\n")
+
+
+def extra_parent(pctx):
+    cmd = [sys.executable, "-O", "-B", "-c", "import checks.c17_surveillance as m; m.probe_main()"]
+    try:
+        p = subprocess.run(cmd, cwd=core.VERIF, capture_output=True, text=True, timeout=300, env=dict(os.environ, VERIF_SEED=str(pctx.seed)))
+    except (OSError, subprocess.TimeoutExpired) as e:
+        pctx.inconclusive("the -O probe did not run: %r" % (e,))
+        return
+    line = [x for x in p.stdout.splitlines() if x.startswith("PROBE-RESULT ")]
+    if p.returncode != 0 or not line:
+        pctx.inconclusive("the -O probe failed (rc=%s): %s" % (p.returncode, (p.stderr or p.stdout)[-800:]))
+        return
+    res = json.loads(line[-1][len("PROBE-RESULT "):])
+    if not res["optimized"]:
+        pctx.inconclusive("the -O probe did not run with assertions stripped")
+        return
+    pctx.count("optimized_probe_cases", res["cases"])
+    for v in res["violations"]:
+        pctx.violation_counts[v["mechanism"]] = pctx.violation_counts.get(v["mechanism"], 0)
+    for mech, cnt in res["counts"].items():
+        pctx.violation_counts[mech] = pctx.violation_counts.get(mech, 0) + cnt
+    for v in res["violations"]:
+        v = dict(v, what=v["what"] + " [seen by the probe under python -O]")
+        pctx.violations.append(v)
 
 
 if __name__ == "__main__":
